@@ -57,8 +57,11 @@ class OggOpusInfo(StreamInfo):
             raise OggOpusHeaderError(
                 "page has ID header, but doesn't start a stream")
 
-        (version, self.channels, pre_skip, orig_sample_rate, output_gain,
-         channel_map) = struct.unpack("<BBHIhB", page.packets[0][8:19])
+        try:
+            (version, self.channels, pre_skip, orig_sample_rate, output_gain,
+             channel_map) = struct.unpack("<BBHIhB", page.packets[0][8:19])
+        except struct.error:
+            raise OggOpusHeaderError("header packet too short")
 
         self.__pre_skip = pre_skip
 
